@@ -47,4 +47,20 @@ with ThreadPoolExecutor(jobs) as ex:
             for f in r["failed"]: print("      ", f)
             for u in r["unsupported"]: print("      ", u)
         sys.stdout.flush()
-json.dump(res, open("/tmp/aovc_detect_last.json", "w"), indent=1)
+out_path = os.path.join(VERIF, "seeded", "detection.json")
+try:
+    old = json.load(open(out_path))
+except Exception:
+    old = {}
+for name, out in res.items():
+    rec = {}
+    for pid, r in out.items():
+        if not isinstance(r, dict):
+            rec[pid] = r
+            continue
+        ded = [f for f in r["failed"] if f.startswith("FAILED obligation=")]
+        nat = [f for f in r["failed"] if not f.startswith("FAILED obligation=")]
+        rec[pid] = {"exit": r["exit"], "n_failed": r["n_failed"], "deductive": [f[len("FAILED obligation="):][:160] for f in ded[:2]], "native": [f[len("FAILED "):][:160] for f in nat[:2]],
+                    "unsupported": [u[:160] for u in r["unsupported"][:1]]}
+    old[name] = rec
+json.dump(old, open(out_path, "w"), indent=1, sort_keys=True)
